@@ -881,6 +881,16 @@ class Facts:
         for e in inst.get("edges", []):
             if bb is not None and e["bb"] != bb:
                 continue
+            if e["k"] == "unsize" and e["info"].get("ptr") in ("ref", "raw") and e["info"].get("vtable"):
+                # creator attribution: a *borrowed* trait object (`&mut x as &mut dyn Tr`) cannot
+                # outlive this frame; whatever is done through it (by callees, including body-less
+                # ones such as core::fmt::write) happens while this instance runs
+                nd = norm_dyn(e["info"]["dyn"])
+                for v in self.vtables:
+                    if v["concrete"] == e["info"]["vtable"] and norm_dyn(v["dyn"]) == nd:
+                        for _, iid in v["methods"]:
+                            out.append((e["bb"], "dyncb", iid, e))
+                continue
             if e["k"] not in ("call", "drop"):
                 continue
             if e.get("cleanup") and not include_cleanup:
@@ -891,25 +901,8 @@ class Facts:
             if to is not None:
                 out.append((e["bb"], e["k"], to, e))
                 # leaf callee with dyn-typed arguments: may call back through the vtable
-                callee = self.instances[to]
-                if not callee["has_body"] and e.get("dyn_args"):
-                    # a body-less callee given a trait object may call back through its vtable.
-                    # Candidates: the concrete types unsized to that dyn type in this very
-                    # instance (the usual `&mut x as &mut dyn Tr` right before the call); if the
-                    # object was not created here, every vtable of that dyn type in the program.
-                    local_unsized = [(x["info"].get("vtable"), x["info"].get("dyn")) for x in inst.get("edges", [])
-                                     if x["k"] == "unsize" and x["info"].get("vtable")]
-                    for d in e["dyn_args"]:
-                        for dyn in extract_dyns(d):
-                            nd = norm_dyn(dyn)
-                            here = {c for c, dd in local_unsized if norm_dyn(dd) == nd}
-                            for v in self.vtables:
-                                if norm_dyn(v["dyn"]) != nd:
-                                    continue
-                                if here and v["concrete"] not in here:
-                                    continue
-                                for _, iid in v["methods"]:
-                                    out.append((e["bb"], "dyncb", iid, e))
+                # (a body-less callee given a trait object may call back through its vtable: this is
+                # accounted to the instance that *created* the borrowed trait object, see below)
             elif e.get("why") == "virtual":
                 ts = self.vtable_targets(e["dyn"], e["method"])
                 if ts:
